@@ -52,7 +52,26 @@ def _findings_through_new_helpers(repo, findings):
     if base is None or not findings:
         return []
     new = {q for q in repo.functions if q.split(".setter")[0] not in base}
-    if not new:
+    # state (attributes, class-level names) that does not exist on the pinned tree: the rules know no invariant about it
+    new_attrs = set()
+    try:
+        import json as _json
+
+        from sa.inline import BASELINE as _BL
+
+        base_attrs = set(_json.loads(_BL.read_text()).get("stored_attrs", []))
+        if base_attrs:
+            for m_ in repo.modules.values():
+                for n_ in _ast.walk(m_.tree):
+                    if isinstance(n_, _ast.Attribute) and isinstance(n_.ctx, _ast.Store | _ast.Del) and n_.attr not in base_attrs:
+                        new_attrs.add(n_.attr)
+                    if isinstance(n_, _ast.ClassDef):
+                        for st_ in n_.body:
+                            if isinstance(st_, _ast.Assign):
+                                new_attrs.update(t_.id for t_ in st_.targets if isinstance(t_, _ast.Name) and t_.id not in base_attrs)
+    except Exception:
+        new_attrs = set()
+    if not new and not new_attrs:
         return []
     from sa.sym import SymExec
 
@@ -93,6 +112,19 @@ def _findings_through_new_helpers(repo, findings):
                 if any(isinstance(c.func, _ast.Name) and c.func.id == nm for c in repo.calls_in(owner)) and nf.qualname in new and owner.qualname in base:
                     # a closure defined inside a pinned function but not pinned itself
                     hit = nf.qualname
+        # the function (or a new helper it calls) consults state added after the pinned inventory
+        if hit is None and new_attrs:
+            scope = [owner]
+            for c in repo.calls_in(owner):
+                try:
+                    scope.extend(t for t in repo.resolve_call(c, owner)[0] if t.qualname in new)
+                except Exception:
+                    pass
+            for fn in scope:
+                rd = sorted({a.attr for a in _ast.walk(fn.node) if isinstance(a, _ast.Attribute) and isinstance(a.ctx, _ast.Load) and a.attr in new_attrs})
+                if rd:
+                    hit = f"state:{fn.short} reads .{rd[0]}"
+                    break
         if hit is not None:
             out.append((f, hit))
     return out
@@ -140,9 +172,12 @@ def run_one(prop, tier, root, replay=None, write_ev=True, quiet=False, selftest_
     if unfollowed:
         keep = [f for f in L.findings if f not in [x for x, _ in unfollowed]]
         for f, hq in unfollowed:
-            print(f"note: {prop}.{f.rule} at {f.construct} not counted: {f.loc.split(' ')[0]} delegates to {hq}(), a helper added after the pinned inventory that the analysis does not follow")
+            if hq.startswith("state:"):
+                print(f"note: {prop}.{f.rule} at {f.construct} not counted: {f.loc.split(' ')[0]}: {hq[6:]}, program state added after the pinned inventory about which the rules know no invariant")
+            else:
+                print(f"note: {prop}.{f.rule} at {f.construct} not counted: {f.loc.split(' ')[0]} delegates to {hq}(), a helper added after the pinned inventory that the analysis does not follow")
         if not keep:
-            print(f"ANALYSIS-ERROR property={prop} every refuted obligation lies in code that delegates to helpers the analysis does not follow ({', '.join(sorted({h for _, h in unfollowed}))})")
+            print(f"ANALYSIS-ERROR property={prop} every refuted obligation lies in code that delegates to helpers the analysis does not follow or consults state it knows nothing about ({', '.join(sorted({h[6:] if h.startswith('state:') else h for _, h in unfollowed}))})")
             return 2
         L.findings[:] = keep
 
